@@ -414,6 +414,10 @@ func (fd *Client) Query(ctx context.Context, input *dynamodb.QueryInput, opt ...
 		return nil, err
 	}
 
+	if err := validateFilterExpression(input.FilterExpression); err != nil {
+		return nil, err
+	}
+
 	table, err := fd.getTable(aws.ToString(input.TableName))
 	if err != nil {
 		return nil, mapKnownError(err)
@@ -464,6 +468,10 @@ func (fd *Client) Scan(ctx context.Context, input *dynamodb.ScanInput, opt ...fu
 	}
 
 	if err := validateProjectionExpression(input.ProjectionExpression); err != nil {
+		return nil, err
+	}
+
+	if err := validateFilterExpression(input.FilterExpression); err != nil {
 		return nil, err
 	}
 
@@ -768,10 +776,25 @@ func (fd *Client) getTable(tableName string) (*core.Table, error) {
 	return table, nil
 }
 
+// validateFilterExpression refuses a filter that is given but empty: "no filter" is a request
+// without the parameter
+func validateFilterExpression(expression *string) error {
+	if expression != nil && strings.TrimSpace(*expression) == "" {
+		return &smithy.GenericAPIError{Code: "ValidationException", Message: "Invalid FilterExpression: The expression can not be empty;"}
+	}
+
+	return nil
+}
+
 // validateProjectionExpression refuses a projection that is not a list of document paths
 func validateProjectionExpression(expression *string) error {
-	if strings.TrimSpace(aws.ToString(expression)) == "" {
+	if expression == nil {
 		return nil
+	}
+
+	if strings.TrimSpace(*expression) == "" {
+		// given, but empty: that is not "no projection", the request is malformed
+		return &smithy.GenericAPIError{Code: "ValidationException", Message: "Invalid ProjectionExpression: The expression can not be empty;"}
 	}
 
 	if err := language.CheckProjectionExpression(aws.ToString(expression)); err != nil {
